@@ -437,6 +437,11 @@ func worker(args []string) int {
 		if err := json.Unmarshal(raw, &cs); err != nil {
 			panic(err)
 		}
+		if cs.Chain.Mode == "flood" {
+			// the history of a flood case is a description, not datagrams: run the scenario again
+			flood(r, cs.Chain.Proto)
+			return reg.WorkerExit(r)
+		}
 		in, err := build(cs.Chain)
 		if err != nil {
 			panic(err)
